@@ -58,6 +58,7 @@ def gen_case(rng, tier, idx):
         mode = "gaps"  # Hexital-level fill without a Hexital-level timeframe only matters to member timeframes, and only across gaps
     rows = streams.make_rows(rng, n, rng.choice(["walk", "walk", "flat_runs", "spiky", "zero_vol"]), step, mode, tf_s or unit * 3, max_gap_buckets=8)
     members = []
+    member_fill = False
     for _ in range(rng.choice([1, 1, 2, 2, 3, 4, 5])):
         c = configs.rand_config(rng, max_period=9, allow_input=rng.random() < 0.5)
         r = rng.random()
@@ -65,7 +66,12 @@ def gen_case(rng, tier, idx):
             c["kw"]["timeframe"] = tf_name(unit * rng.choice([2, 3, 5]))
         elif r < 0.45 and tf:
             c["kw"]["timeframe"] = tf
+        if c["kw"].get("timeframe") and not fill and not ha and rng.random() < 0.2:
+            c["kw"]["timeframe_fill"] = True  # a member's own flag: inside a Hexital the Hexital-level setting is the effective one
+            member_fill = True
         members.append({"cfg": c, "form": rng.choice(["object", "dict", "settings", "settings"])})
+    if member_fill:
+        rows = streams.make_rows(rng, n, "walk", step, "gaps", tf_s or unit * 3, max_gap_buckets=8)
     lifespan = None
     life_mode = None
     sch = schedules.rand_schedule(rng, n, bucket=max(1, unit // step))
@@ -166,7 +172,7 @@ def run_case(case):
         cfg = m["cfg"]
         eff_tf = cfg["kw"].get("timeframe") or case["tf"]
         kw = {k: v for k, v in hkw.items() if k != "timeframe"}
-        cfg2 = {**cfg, "kw": {k: v for k, v in cfg["kw"].items() if k != "timeframe"}}
+        cfg2 = {**cfg, "kw": {k: v for k, v in cfg["kw"].items() if k not in ("timeframe", "timeframe_fill")}}
         if eff_tf:
             kw["timeframe"] = eff_tf
         twins[nm] = configs.build(cfg2, candles=rows_to_candles(rows[:pre]), **kw)
@@ -194,6 +200,9 @@ def run_case(case):
         a = [(s["ts"], s["ohlcv"], s["ind"].get(nm)) for s in snapshot(member.candles, helpers=False)]
         b = [(s["ts"], s["ohlcv"], s["ind"].get(twin.name)) for s in snapshot(twin.candles, helpers=False)]
         stats["members_compared"] = stats.get("members_compared", 0) + 1
+        via_hexital = hx.reading_as_list(nm)
+        if not same(via_hexital, [x[2] for x in a]):
+            V("hexital-accessor", "C08|reading_as_list-differs-from-member", f"Hexital.reading_as_list({nm!r}) {short(via_hexital[-3:], 150)} != the member's own column {short([x[2] for x in a][-3:], 150)}; hexital settings {stats['hex_settings']}")
         if any(x[2] is not None and x[2] != {} for x in b):
             any_reading = True
         if not same(a, b):
@@ -209,7 +218,7 @@ def run_case(case):
                 try:
                     eff = {k: v for k, v in hkw.items() if k != "timeframe"}
                     eff["timeframe"] = cfg["kw"]["timeframe"]
-                    cfg2 = {**cfg, "kw": {k: v for k, v in cfg["kw"].items() if k != "timeframe"}}
+                    cfg2 = {**cfg, "kw": {k: v for k, v in cfg["kw"].items() if k not in ("timeframe", "timeframe_fill")}}
                     t2 = configs.build(cfg2, candles=rows_to_candles(seed_rows), **eff)
                     if sch.get("precalc"):
                         t2.calculate()
